@@ -428,7 +428,12 @@ def structural_key(e):
             if x.num_args() == 0:
                 if x.decl().kind() == z3.Z3_OP_UNINTERPRETED:
                     nm = x.decl().name()
-                    if nm[:2] in ("X!", "K!", "S!"):
+                    if nm.startswith("BV!"):
+                        # bound index variable: only its position matters (not the family nesting depth)
+                        pos = nm.rsplit("!", 1)[1]
+                        if ("bv", pos) not in _GEN:
+                            _GEN[("bv", pos)] = z3.Int(f"?bv{pos}")
+                        subs.append((x, _GEN[("bv", pos)]))
                         continue
                     sn = x.sort().name()
                     if sn not in _GEN:
